@@ -61,15 +61,15 @@ def programs(seed, nprog, per_prog=24):
                          "body": {"e": "seq", "t": SI, "es": [body]}})
         # operands: functions of the loop variable (nothing to fold)
         off = rnd.choice([3, 5, 6])
-        calls = []
+        stmts = []
         for j in range(len(funs)):
             # a < 0 < b, c: divisors and moduli (b, c) are positive, the dividend has both signs over the calls
-            calls.append({"e": "call", "fi": j + 1, "args": [prim("si.sub", prim("si.mul", var("i"), lit(SI, 5)), lit(SI, 11)),
-                                                           prim("si.add", var("i"), lit(SI, off)), prim("si.add", var("i"), lit(SI, 1))]})
-            calls.append({"e": "str", "s": " "})
-        calls.append({"e": "str", "s": "\n"})
+            call = {"e": "call", "fi": j + 1, "args": [prim("si.sub", prim("si.mul", var("i"), lit(SI, 5)), lit(SI, 11)),
+                                                       prim("si.add", var("i"), lit(SI, off)), prim("si.add", var("i"), lit(SI, 1))]}
+            stmts.append({"e": "print", "args": [call, {"e": "str", "s": " " if (j + 1) % 16 else "\n"}]})
+        stmts.append({"e": "print", "args": [{"e": "str", "s": "\n"}]})
         top.append({"d": "stmt", "x": {"e": "for", "x": "i", "lo": lit(SI, 1), "hi": lit(SI, 3),
-                                       "body": {"e": "seq", "t": UNIT, "es": [{"e": "print", "args": calls}]}}})
+                                       "body": {"e": "seq", "t": UNIT, "es": stmts}}})
         progs.append({"id": "nest%d_%d" % (seed, k), "funs": funs, "top": top, "recs": [], "uns": [], "feat": ["opnest"], "seed": seed,
                       "nests": [n for (_, n, _) in part]})
     return progs
